@@ -2,9 +2,11 @@
    language as harness/c11_io.c (one case per line); prints, '|'-separated and hex-encoded:
      T0   model of MIR_output of the described context
      W1   model of the raw (uncompressed) bytes of MIR_write_with_func
+     MW   (several modules) model of the raw bytes of MIR_write_module_with_func for each module on its own
      RB   ok / ERR:why   model of MIR_read_with_func on W1;  T1 = model text of what was read
      TN1/TR1/TN2  model of module->last_temp_item_num / func->last_temp_num after the binary read, and of the
           module counters after the scan
+     S0   structural dump of the described context (format of struct_of in harness/c11_io.c); S2 = of what the model scanned
      SC   ok / ERR:why   model of MIR_scan_string on T0;  TAST = tnorm/differs: the scanned AST is / is not map tnorm_module of the input
       T2 = model text of what was scanned; SC2/T3 once more
    With argument "table" prints the model's insn table in the format of `c11_io table`. *)
@@ -147,6 +149,97 @@ let parse_case line : M.module0 list =
 
 let text ms = M.p_ctx M.fmtF M.fmtD M.fmtLD ms
 
+(* ---------------------------------------------------------------- structural dump of an AST, in the format of
+   struct_of in harness/c11_io.c (field S0/S1/S2): what the module IS, read from the model's AST.  Not shown, as
+   there: the scale of an index-less memory operand, the size of a non-block argument. *)
+let hex_of_pos p =
+  (* bits, least significant first -> hex digits *)
+  let rec bits = function M.XH -> [1] | M.XO q -> 0 :: bits q | M.XI q -> 1 :: bits q in
+  let rec nibbles = function
+    | [] -> []
+    | [a] -> [a] | [a; b] -> [a + 2 * b] | [a; b; c] -> [a + 2 * b + 4 * c]
+    | a :: b :: c :: d :: r -> (a + 2 * b + 4 * c + 8 * d) :: nibbles r in
+  String.concat "" (List.rev_map (fun n -> String.make 1 "0123456789abcdef".[n]) (nibbles (bits p)))
+let hex_of_z = function M.Z0 -> "0" | M.Zpos p -> hex_of_pos p | M.Zneg _ -> "NEG"
+let z2 = z_of_int 2
+let hex_mod bits z = hex_of_z (M.Z.modulo z (M.Z.pow z2 (z_of_int bits)))
+let str_of_bytes (b : M.bytes) = String.concat "" (List.map (fun c -> String.make 1 (Char.chr (int_of_n c))) b)
+let tname = function
+  | M.TI8 -> "i8" | M.TU8 -> "u8" | M.TI16 -> "i16" | M.TU16 -> "u16" | M.TI32 -> "i32" | M.TU32 -> "u32"
+  | M.TI64 -> "i64" | M.TU64 -> "u64" | M.TF -> "f" | M.TD -> "d" | M.TLD -> "ld" | M.TP -> "p"
+  | M.TBLK n -> "blk" ^ string_of_int (int_of_n n) | M.TRBLK -> "rblk" | M.TUNDEF -> "undef"
+let tbits = function
+  | M.TI8 | M.TU8 -> 8 | M.TI16 | M.TU16 -> 16 | M.TI32 | M.TU32 | M.TF -> 32 | M.TLD -> 80 | _ -> 64
+let oname = function None -> "-" | Some n -> str_of_bytes n
+let dec_of_z z =
+  (* label numbers: decimal *)
+  let rec go z acc = if z = M.Z0 then acc else
+      let (q, r) = M.Z.div_eucl z z10 in go q (string_of_int (int_of_pos_or_zero r) ^ acc)
+  and int_of_pos_or_zero = function M.Z0 -> 0 | M.Zpos p -> int_of_pos p | M.Zneg p -> - (int_of_pos p) in
+  match z with M.Z0 -> "0" | M.Zneg _ -> "-" ^ go (M.Z.opp z) "" | _ -> go z ""
+let dump_sig b res (args : M.var list) =
+  List.iter (fun t -> Buffer.add_string b (" " ^ tname t)) res;
+  List.iter (fun (v : M.var) ->
+      Buffer.add_string b (" " ^ tname v.M.v_type ^ ":" ^ str_of_bytes v.M.v_name);
+      if M.all_blk_type_p v.M.v_type then Buffer.add_string b (":" ^ hex_mod 64 v.M.v_size)) args
+let dump_op b = function
+  | M.OReg r -> Buffer.add_string b (" r:" ^ str_of_bytes r)
+  | M.OInt i -> Buffer.add_string b (" i:" ^ hex_mod 64 i)
+  | M.OUint u -> Buffer.add_string b (" u:" ^ hex_mod 64 u)
+  | M.OFloat x -> Buffer.add_string b (" f:" ^ hex_mod 32 x)
+  | M.ODouble x -> Buffer.add_string b (" d:" ^ hex_mod 64 x)
+  | M.OLdouble x -> Buffer.add_string b (" ld:" ^ hex_mod 80 x)
+  | M.ORef n -> Buffer.add_string b (" ref:" ^ str_of_bytes n)
+  | M.OStr s -> Buffer.add_string b (" s:" ^ hex_of_bytes s)
+  | M.OLabel l -> Buffer.add_string b (" l:" ^ dec_of_z l)
+  | M.OMem m ->
+    Buffer.add_string b (" m:" ^ tname m.M.m_type ^ ":" ^ hex_mod 64 m.M.m_disp ^ ":" ^ oname m.M.m_base ^ ":" ^ oname m.M.m_index ^ ":"
+                         ^ (match m.M.m_index with Some _ -> string_of_int (int_of_n m.M.m_scale) | None -> "-")
+                         ^ ":" ^ oname m.M.m_alias ^ ":" ^ oname m.M.m_nonalias)
+let struct_dump (ms : M.module0 list) =
+  let b = Buffer.create 4096 in
+  let line s = Buffer.add_string b s; Buffer.add_char b '\n' in
+  List.iter (fun (m : M.module0) ->
+      line ("module " ^ str_of_bytes m.M.mod_name);
+      List.iter (fun it ->
+          match it with
+          | M.ItImport n -> line ("import " ^ str_of_bytes n)
+          | M.ItExport n -> line ("export " ^ str_of_bytes n)
+          | M.ItForward n -> line ("forward " ^ str_of_bytes n)
+          | M.ItBss (n, len) -> line ("bss " ^ oname n ^ " " ^ hex_mod 64 len)
+          | M.ItData (n, t, els) ->
+            Buffer.add_string b ("data " ^ oname n ^ " " ^ tname t);
+            List.iter (fun e -> Buffer.add_string b (" " ^ hex_mod (tbits t) e)) els;
+            Buffer.add_char b '\n'
+          | M.ItRef (n, r, d) -> line ("ref " ^ oname n ^ " " ^ str_of_bytes r ^ " " ^ hex_mod 64 d)
+          | M.ItLref (n, l, l2, d) ->
+            line ("lref " ^ oname n ^ " l:" ^ dec_of_z l ^ " " ^ (match l2 with Some x -> "l:" ^ dec_of_z x | None -> "-") ^ " " ^ hex_mod 64 d)
+          | M.ItExpr (n, f) -> line ("expr " ^ oname n ^ " " ^ str_of_bytes f)
+          | M.ItProto (n, va, res, args) ->
+            Buffer.add_string b ("proto " ^ str_of_bytes n ^ (if va then " 1" else " 0"));
+            dump_sig b res args;
+            Buffer.add_char b '\n'
+          | M.ItFunc f ->
+            Buffer.add_string b ("func " ^ str_of_bytes f.M.f_name ^ (if f.M.f_vararg then " 1" else " 0"));
+            dump_sig b f.M.f_res f.M.f_args;
+            Buffer.add_char b '\n';
+            List.iter (fun (t, n) -> line ("local " ^ tname t ^ " " ^ str_of_bytes n)) f.M.f_locals;
+            List.iter (fun ((t, n), h) -> line ("global " ^ tname t ^ " " ^ str_of_bytes n ^ " " ^ str_of_bytes h)) f.M.f_globals;
+            List.iter (fun i ->
+                match i with
+                | M.ILabel l -> line ("label l:" ^ dec_of_z l)
+                | M.IInsn (c, ops) ->
+                  Buffer.add_string b ("insn " ^ ocaml_string (fst (M.insn_desc c)) ^ " " ^ string_of_int (List.length ops));
+                  List.iter (dump_op b) ops;
+                  Buffer.add_char b '\n') f.M.f_insns;
+            line "endfunc") m.M.mod_items;
+      line "endmodule") ms;
+  Buffer.contents b
+let hex_of_string s =
+  let buf = Buffer.create (2 * String.length s) in
+  String.iter (fun c -> Buffer.add_string buf (Printf.sprintf "%02x" (Char.code c))) s;
+  Buffer.contents buf
+
 (* decimal of a non-negative Z below 2^62 *)
 let rec int_of_z = function M.Z0 -> 0 | M.Zpos p -> int_of_pos p | M.Zneg p -> - (int_of_pos p)
 let counters zs = String.concat "" (List.map (fun z -> string_of_int (int_of_z z) ^ ",") zs)
@@ -163,6 +256,8 @@ let run_case line =
   let b = Buffer.create 4096 in
   let t0 = text ms in
   Buffer.add_string b ("T0=" ^ hex_of_bytes t0);
+  let s0 = struct_dump ms in
+  Buffer.add_string b ("|S0=" ^ hex_of_string s0);
   Buffer.add_string b (if M.wf_ctx_b ms then "|WF=1" else "|WF=0");
   (* temp-name counters the readers restore (coq/C11/TempNames.v) *)
   Buffer.add_string b ("|TN1=" ^ counters (M.bin_item_counters ms) ^ "|TR1=" ^ counters (M.bin_reg_counters ms)
@@ -171,6 +266,9 @@ let run_case line =
   else begin
     let w = M.write_ctx ms in
     Buffer.add_string b ("|W1=" ^ hex_of_bytes w);
+    (* MIR_write_module_with_func of every module on its own: the image is a function of that module alone *)
+    if List.length ms > 1 then
+      Buffer.add_string b ("|MW=" ^ String.concat "" (List.map (fun m -> hex_of_bytes (M.write_ctx [m]) ^ ",") ms));
     match M.read_ctx w with
     | M.Err why -> Buffer.add_string b ("|RB=ERR:" ^ ocaml_string why)
     | M.Ok ms' ->
@@ -199,6 +297,8 @@ let run_case line =
                             | Some msr when ms2 = List.map M.tnorm_module msr -> "|TAST=relabel"
                             | Some _ -> "|TAST=differs"
                             | None -> "|TAST=norelabel");
+     let s2 = struct_dump ms2 in
+     if s2 = s0 then Buffer.add_string b "|S2==" else Buffer.add_string b ("|S2=" ^ hex_of_string s2);
      let t2 = text ms2 in
      if t2 = t0 then Buffer.add_string b "|T2==" else Buffer.add_string b ("|T2=" ^ hex_of_bytes t2);
      (match M.scan_ctx M.parseF M.parseD M.parseLD t2 with
